@@ -122,4 +122,11 @@ var checks = map[string]*Check{
 		Assumptions: commonAssumptions,
 		RealStub:    coreRealStub,
 	},
+	"C12": {
+		Legs:        []Leg{{World: "C12", Weight: 3}, {World: "C12", Race: true, Weight: 2}},
+		Probes:      []string{"concurrent_calls", "double_close_same_instant", "data_racing_close", "backend_closed_first"},
+		Rule:        "1..2 shim sessions and 2..10 data/poll/close calls with valid, unknown, malformed and empty arguments, most of them issued at the same simulated instant so that the scheduler interleaves them at the yield points inside the shim handlers and the connection (data vs close, close vs close, poll vs backend close); in a third of the runs the backend sends 0..14 messages and closes first. Every call must be answered with 200/400/408/500; calls after an answered close must get 400; crash monitor + race-detector leg.",
+		Assumptions: commonAssumptions,
+		RealStub:    coreRealStub,
+	},
 }
